@@ -439,15 +439,15 @@ impl Prop for ReaderProp {
         match (self.mode, tier, dbg) {
             (Mode::C02, Tier::Quick, true) => 300_000,
             (Mode::C02, Tier::Quick, false) => 100_000,
-            (Mode::C02, Tier::Thorough, true) => 12_000_000,
-            (Mode::C02, Tier::Thorough, false) => 8_000_000,
+            (Mode::C02, Tier::Thorough, true) => 50_000_000,
+            (Mode::C02, Tier::Thorough, false) => 30_000_000,
             (Mode::C09, Tier::Quick, true) => 200_000,
-            (Mode::C09, Tier::Thorough, true) => 8_000_000,
+            (Mode::C09, Tier::Thorough, true) => 30_000_000,
             (Mode::C09, _, false) => 0,
             (Mode::C14, Tier::Quick, true) => 300_000,
-            (Mode::C14, Tier::Thorough, true) => 8_000_000,
+            (Mode::C14, Tier::Thorough, true) => 30_000_000,
             (Mode::C14, Tier::Quick, false) => 100_000,
-            (Mode::C14, Tier::Thorough, false) => 2_000_000,
+            (Mode::C14, Tier::Thorough, false) => 10_000_000,
         }
     }
 
